@@ -1,7 +1,161 @@
 import GluonModel.Sexp
 import GluonModel.Infix
 import GluonModel.InfixTable
+import GluonModel.ExprGrammar
+import GluonModel.LayoutAlgo
 open GluonModel GluonModel.Infix
+
+/-! ### print → layout → parse of the expression core (`pp <style> <tree>`) -/
+namespace PP
+open GluonModel.ExprGrammar
+
+def d : Span := dummy
+
+def args? (xs : List Sexp) : Option (List Arg) :=
+  xs.mapM fun x => x.atom?.map fun a => (a, d)
+
+/-- request tree → concrete tree with dummy spans -/
+partial def tree : Sexp → Option C
+  | .list [.atom "id", .atom x] => some (.ident x d)
+  | .list [.atom "int", n] => n.toNat?.map fun n => .int n d
+  | .list [.atom "str", .str s] => some (.str s d)
+  | .list [.atom "unit"] => some (.unit d d)
+  | .list [.atom "paren", e] => (tree e).map fun b => .paren d b d
+  | .list (.atom "tuple" :: e :: es) => do
+    let xs ← (e :: es).mapM tree
+    match xs.reverse with
+    | last :: init => some (.paren d (init.foldl (fun acc x => C.comma x d acc) last) d)
+    | [] => none
+  | .list (.atom "app" :: f :: as) => do
+    let f ← tree f
+    let as ← as.mapM tree
+    some (as.foldl C.app f)
+  | .list [.atom "infix", l, .str o, r] => do
+    let l ← tree l
+    let r ← tree r
+    some (.infix l o d r)
+  | .list [.atom "lam", .list xs, b] => do
+    let xs ← args? xs
+    let b ← tree b
+    some (.lam d xs d b)
+  | .list [.atom "if", c, a, b] => do
+    let c ← tree c
+    let a ← tree a
+    let b ← tree b
+    some (.ite d c d a d b)
+  | .list [.atom "let", .atom x, .list xs, rhs, body] => do
+    let xs ← args? xs
+    let rhs ← tree rhs
+    let body ← tree body
+    some (.letIn d (x, d) xs d rhs d body)
+  | _ => none
+
+def tokText : T → String
+  | .ident n => n | .int n => toString n | .str s => "\"" ++ s ++ "\"" | .op n => n
+  | .kLet => "let" | .kIn => "in" | .kIf => "if" | .kThen => "then" | .kElse => "else"
+  | .lam => "\\" | .arrow => "->" | .eq => "=" | .lp => "(" | .rp => ")" | .comma => ","
+  | .ob => "" | .cb => ""
+
+/-- the trivia between token `i-1` and token `i` (`i ≥ 1`) in style `k`: token-free text -/
+def gap (k i : Nat) : String :=
+  if k = 0 then " "
+  else match (k + 3 * i) % 5 with
+    | 0 => "  "
+    | 1 => " /* c */ "
+    | 2 => "   "
+    | _ => " "
+
+/-- Width of the span the tokenizer gives a token of byte width `w`.  The code as it is
+    (parser/src/token.rs:502-523 `operator`): for a type-prefixed operator (`#Int+`) the span end
+    is taken after the first `take_while(is_operator_byte)`, i.e. after the `#` alone, although
+    the token is the whole `#Int+` — finding `span:operator:type-prefixed`. -/
+def spanWidth (t : T) (w : Nat) : Nat :=
+  match t with
+  | .op n =>
+    match n.toList with
+    | '#' :: c :: _ => if c.isAlpha || c == '_' then 1 else w
+    | _ => w
+  | _ => w
+
+/-- lay the real tokens out on one line from byte position 1 (positions are 1-based, as
+    `BytePos` in the real parser) -/
+def place (k : Nat) : List T → Nat → Nat → String → List Tok → String × List Tok
+  | [], _, _, text, acc => (text, acc.reverse)
+  | t :: r, i, pos, text, acc =>
+    let g := if i = 0 then "" else gap k i
+    let s := pos + g.utf8ByteSize
+    let w := (tokText t).utf8ByteSize
+    place k r (i + 1) (s + w) (text ++ g ++ tokText t) (⟨t, ⟨s, s + spanWidth t w⟩⟩ :: acc)
+
+open GluonModel.LayoutAlgo in
+def kindOf : T → Kind
+  | .kLet => .let_ | .kIn => .in_ | .kIf => .if_ | .kThen => .then_ | .kElse => .else_
+  | .lam => .lambda | .arrow => .rarrow | .eq => .equals | .lp => .lparen | .rp => .rparen
+  | .comma => .comma | .ob => .openBlock | .cb => .closeBlock
+  | _ => .other
+
+/-- C09's layout model on the placed tokens; the result in this model's token type -/
+def runLayout (ts : List ExprGrammar.Tok) (endPos : Nat) : Option (List ExprGrammar.Tok) :=
+  let inp : List LayoutAlgo.Tok := ts.map fun t => ⟨kindOf t.t, ⟨1, t.sp.s, t.sp.s⟩, t.sp.e⟩
+  let eof : LayoutAlgo.Tok := ⟨.eof, ⟨1, endPos, endPos⟩, endPos⟩
+  match LayoutAlgo.layout inp eof (4 * ts.length + 16) with
+  | (out, .ok) =>
+    out.mapM fun o =>
+      match o.kind with
+      | .openBlock => some ⟨.ob, dummy⟩
+      | .closeBlock => some ⟨.cb, dummy⟩
+      | .semi => none
+      | _ => ts.find? fun t => t.sp.s = o.loc.abs ∧ t.sp.e = o.stop
+  | _ => none
+
+def sp (s : Span) : String := s!"{s.s} {s.e}"
+
+def arg (a : Arg) : String := s!"({a.1} {sp a.2})"
+
+def appParts : C → C × List C
+  | .app f a => ((appParts f).1, (appParts f).2 ++ [a])
+  | c => (c, [])
+
+def commaParts : C → List C
+  | .comma a _ b => a :: commaParts b
+  | c => [c]
+
+partial def render (c : C) : String :=
+  match c with
+  | .ident n s => s!"(id {n} {sp s})"
+  | .int n s => s!"(int {n} {sp s})"
+  | .str x s => s!"(str {Sexp.quote x} {sp s})"
+  | .unit .. => s!"(tuple {sp (span c)})"
+  | .paren _ b _ => s!"(tuple {sp (span c)}" ++ String.join ((commaParts b).map fun x => " " ++ render x) ++ ")"
+  | .comma .. => "(stray-comma)"
+  | .app .. =>
+    let (f, as) := appParts c
+    s!"(app {sp (span c)} {render f}" ++ String.join (as.map fun x => " " ++ render x) ++ ")"
+  | .infix l o os r => s!"(infix {sp (span c)} {render l} {Sexp.quote o} {sp os} {render r})"
+  | .lam _ xs _ b => s!"(lam {sp (span c)} (" ++ " ".intercalate (xs.map arg) ++ s!") {render b})"
+  | .ite _ x _ a _ b => s!"(if {sp (span c)} {render x} {render a} {render b})"
+  | .letIn _ x xs _ rhs _ body =>
+    s!"(let {sp (span c)} {arg x} (" ++ " ".intercalate (xs.map arg) ++ s!") {render rhs} {render body})"
+
+def handle (k : Nat) (t : Sexp) : String :=
+  match tree t with
+  | none => "bad-request"
+  | some c0 =>
+    let kinds := (realToks c0).map (·.t)
+    let (text, placed) := place k kinds 0 1 "" []
+    let head := s!"(text {Sexp.quote text}) "
+    match runLayout placed (text.utf8ByteSize + 1) with
+    | none => head ++ "layout-fail"
+    | some lts =>
+      let blocks := if lts.map (·.t) = (toksTop c0).map (·.t) then "blocks-as-predicted" else "blocks-differ"
+      match parseTop (6 * lts.length + 6) lts with
+      | none => head ++ blocks ++ " parse-fail"
+      | some c =>
+        let legal := if Legal c0 then "legal" else "illegal"
+        let same := if erase c = erase c0 then "same-tree" else "other-tree"
+        head ++ s!"{blocks} {legal} {same} {render c}"
+
+end PP
 
 def parseOp : Sexp → Option Op
   | .list [.atom "op", .str n, .atom "none"] => some ⟨n, none⟩
@@ -36,6 +190,10 @@ def handle : List Sexp → String
       | .error (.undefined o) => "(undefined " ++ Sexp.quote o.name ++ ")"
       | .error .internal => "internal"
     | _, _ => "bad-request"
+  | [.atom "pp", k, t] =>
+    match k.toNat? with
+    | some k => PP.handle k t
+    | none => "bad-request"
   | _ => "bad-request"
 
 def main : IO Unit := driverLoop handle
